@@ -23,9 +23,13 @@ def sh(cmd, cwd=None, env=None, timeout=1200):
 
 
 def confirm(src):
-    pid = src.split("/")[2].replace("seed-", "")
+    import re
+
+    m = re.match(r"seed(\d*)-(C\d+)$", src.split("/")[2])
+    rnd, pid = m.group(1), m.group(2)
     idx = os.path.basename(src.rstrip("/"))
-    name = f"{pid}-{idx}"
+    name = f"{pid}-{idx}" if not rnd else f"{pid}-r{rnd}-{idx}"
+    seed_root = "/".join(src.split("/")[:3])
     wt = f"/tmp/confirm-{name}"
     subprocess.run(["git", "-C", "/repo", "worktree", "remove", "--force", wt], capture_output=True)
     rc, out = sh(["git", "-C", "/repo", "worktree", "add", "-q", "--detach", wt, "HEAD"])
@@ -34,7 +38,7 @@ def confirm(src):
     env = dict(os.environ, PYTHONPATH=f"{wt}/src", PYTHONDONTWRITEBYTECODE="1")
     try:
         demo = os.path.join(src, "demo.py")
-        demo_src = open(demo).read().replace(f"/tmp/seed-{pid}", wt)
+        demo_src = open(demo).read().replace(seed_root, wt)
         local_demo = os.path.join(wt, "_demo.py")
         open(local_demo, "w").write(demo_src)
         rc0, o0 = sh([PY, local_demo], cwd=wt, env=env)
